@@ -44,7 +44,7 @@ def gen_case(st, tier, env):
         kind = w.choice(["permute", "reinsertion", "reinsertion", "reverse_buckets", "as_elements", "rename",
                          "sub_problem_all", "unified", "file", "move_element", "split_bucket", "merge_buckets",
                          "multiplicity", "swap_buckets", "replace_element", "blank_name", "comma_name", "self",
-                         "edit_in_place", "edit_in_place"])
+                         "edit_in_place", "edit_in_place", "twin_name"])
         new = [[list(b) for b in r] for r in rk]
         spec = dict(base)
         v = {"kind": kind}
@@ -112,6 +112,19 @@ def gen_case(st, tier, env):
                 e = w.choice(els)
                 repl = (max([x for x in els if isinstance(x, int)] + [0]) + 8) if isinstance(e, int) else str(e) + "x"
                 new = [[[repl if x == e else x for x in b] for b in r] for r in new]
+        elif kind == "twin_name":
+            # a str dataset (it has a non integer-like name) where "7" and "07" are two different elements
+            strs = [e for e in _all_elems(new) if isinstance(e, str) and not e.isdigit()]
+            if strs:
+                twin_a, twin_b = w.choice([("7", "07"), ("12", "012"), ("3", "003")])
+                e = w.choice(_all_elems(new))
+                if e not in strs or len(strs) > 1:
+                    base_new = [[[twin_a if x == e else x for x in b] for b in r] for r in new]
+                    # the base itself must carry the first twin: rebuild both sides from it
+                    v["rebase"] = base_new
+                    new = [[[twin_b if x == twin_a else x for x in b] for b in r] for r in base_new]
+                    if w.random() < 0.3:
+                        new = base_new  # control: identical
         elif kind in ("blank_name", "comma_name"):
             # strings only: names that differ only by blanks, or one name that looks like two
             strs = [e for e in _all_elems(new) if isinstance(e, str)]
@@ -156,6 +169,13 @@ def run_case(case, ctx):
         if not okb:
             ctx.probe("variant_refused")
             continue
+        a_base, ma_base = a, ma
+        if v.get("rebase"):
+            okr2, a2 = call(build_dataset, dict(case["base"], rankings=v["rebase"]))
+            if not okr2:
+                continue
+            a, ma = a2, canon_rankings(a2.rankings)
+            ctx.probe("twin_names")
         d = v.get("derive")
         if d:
             ctx.probe("derived_route")
@@ -236,4 +256,4 @@ def run_case(case, ctx):
         okn2, cmp_other = call(lambda: a == 42)
         if okn2 and cmp_other is True:
             ctx.violate("C17/equality", {"a == 42": True}, False, t, "a == 42")
-        a, ma = a_saved, ma_saved
+        a, ma = a_base, ma_base
